@@ -321,3 +321,32 @@ NOT_APPLICABLE = {
          "processes; no pre/postcondition on a call inside one process can mention the hash seed "
          "(DESIGN.md 7)",
 }
+
+# ---- round 2: deductive lemmas on the engine's index structures (DESIGN.md 14) ------------------
+_GRAPH = ("Deductive lemmas, proved for all graphs (contracts/C05_graph.py): depend.Graph.add_edge / "
+          "clear_dependencies / remove_node_if_unused keep both node indexes equal to the edge set, "
+          "and Graph.invalidate_deps leaves the recompute map CLOSED under the dependency edges "
+          "(every row affected through any chain of edges is marked), only grown, with the dirty "
+          "rows marked - for row sets, partial correctness, relations' row mappings pointwise. ")
+CHECKS["C05"]["text"] = _GRAPH + CHECKS["C05"]["text"]
+CHECKS["C05"]["engine"] = "pysym+rtc"
+CHECKS["C05"]["technique"] = ("deductive lemmas on depend.Graph incl. invalidation completeness (own AST->SMT VC "
+                             "generator, z3/cvc5) + bounded run-time contract on the real engine against "
+                             "recalculation from scratch")
+CHECKS["C18"]["text"] = _GRAPH + CHECKS["C18"]["text"]
+CHECKS["C18"]["engine"] = "pysym+rtc"
+CHECKS["C18"]["technique"] = ("deductive lemmas on depend.Graph (own AST->SMT VC generator, z3/cvc5) + bounded "
+                             "exhaustive exploration of reference graphs on the real engine")
+CHECKS["C10"]["text"] = ("Deductive lemmas, proved for all data (contracts/C10_relation.py): "
+                         "ReferenceRelation.add_reference / remove_reference / clear / get_affected_rows against "
+                         "the view refs(referring, target); BaseReferenceColumn.set keeps the index exactly the "
+                         "inverse of the column's right-typed non-zero cells; under that invariant "
+                         "get_updates_for_removed_target_rows returns exactly the rows pointing into the removed "
+                         "set (Ref columns). " + CHECKS["C10"]["text"])
+CHECKS["C13"]["text"] = ("Deductive lemmas, proved for all maps (contracts/C13_twowaymap.py): "
+                         "twowaymap.TwoWayMap.insert / remove / remove_left / remove_right / lookup_* against the "
+                         "abstract relation with the representation invariant (both dicts describe the same "
+                         "relation, no empty bin), for the (set, set) and (set, 'single') configurations; "
+                         "SimpleLookupMapping.update_record / lookup_by_key / remove_row_id on top of it: after "
+                         "update_record a row is indexed under exactly its key and lookup_by_key returns exactly "
+                         "the rows with that key. " + CHECKS["C13"]["text"])
